@@ -220,6 +220,16 @@ func withGens(extra ...interface{}) []interface{} {
 
 var CfgC09 = reg(&MachineCfg{
 	Prop: "C09", Also: agreement, Twin: true, Perturb: true,
+	Setup: func(g *G, opt *world.Options) {
+		// "for every genesis": generated custom-module sections that pass genesis validation
+		cdc := app.MakeEncodingConfig().Codec
+		if g.chance("did-genesis-mode", 30) {
+			opt.DidGenesis = g.genDidGenesis(cdc, world.DIDKeys())
+		}
+		if g.chance("aol-genesis-mode", 20) {
+			opt.AolGenesis = g.genAolGenesis(cdc)
+		}
+	},
 	Gens: withGens("commit", 18, "export", 4, "crash", 1),
 	Bias: map[string]int{"right-signers": 88, "exec": 5, "right-proof": 75, "multi": 12},
 	Rule: "differential twin: every committed block (all modules, failing txs, burn deposits, end-blocker activity) is executed by a second, independently constructed instance that is perturbed by CheckTx(New/Recheck), Simulate (also of later txs) and queries between deliveries, a different GOMAXPROCS and time zone, and that re-initialises from its own genesis export; compared at every height: app hash, per-tx code/codespace/data/gas/events, Begin/EndBlock events, probe-set answers; non-trivial = >=5 compared blocks with >=1 failing tx and >=1 perturbation",
